@@ -450,7 +450,9 @@ def inlinable(body):
         # family may be written in terms of (`clone_async` = `self.clone().to_async()`)
         tr = str(j.get('impl_trait'))
         local_trait = not tr.startswith(('std::', 'core::', 'alloc::', 'futures_core::', 'lock_api::'))
-        if not local_trait and not (canon(tr).endswith('Clone') and any(body.key.startswith('<%s<T> as ' % h) for h in HANDLE_NAMES)):
+        if canon(tr) == 'std::convert::From' and j.get('def_kind') == 'AssocFn':
+            pass  # a crate-local conversion: no entry point of its own, it runs wherever `from` / `into` is written
+        elif not local_trait and not (canon(tr).endswith('Clone') and any(body.key.startswith('<%s<T> as ' % h) for h in HANDLE_NAMES)):
             return False
     if canon(body.key) in ATOMIC_FUNCS:
         return False
@@ -470,6 +472,11 @@ OPT = 'std::option::Option'
 RES = 'std::result::Result'
 OPT_VARIANTS = (('None', '0'), ('Some', '1'))
 RES_VARIANTS = (('Ok', '0'), ('Err', '1'))
+
+
+VARIANT_CTORS = {OPT + '::Some': (OPT, 'Some'), RES + '::Ok': (RES, 'Ok'), RES + '::Err': (RES, 'Err'),
+                 'std::task::Poll::Ready': ('std::task::Poll', 'Ready'), 'std::prelude::v1::Some': (OPT, 'Some'),
+                 'std::prelude::v1::Ok': (RES, 'Ok'), 'std::prelude::v1::Err': (RES, 'Err')}
 
 
 def wrap_value(w, rv):
@@ -647,6 +654,17 @@ class Evaluator:
                     ks = [k for k in self.body.facts.consts if k.endswith('>::' + nm) and (k.startswith(pre + '<') or k.startswith(pre + '>'))]
                     if len(ks) == 1:
                         cv = self.named_const_value(ks[0])
+                if cv is None and st.subst and '::' in o['constdef']:
+                    # `E::CLOSED` inside a generic helper spliced for a concrete E: the constant of that impl
+                    m_ = re.search(r'args: \[([A-Za-z_][A-Za-z_0-9]*)/#', o.get('dbg', ''))
+                    who = m_.group(1) if m_ else None
+                    if who in st.subst:
+                        tr, nm = o['constdef'].rsplit('::', 1)
+                        conc = st.subst[who]
+                        ks = [k for k in self.body.facts.consts if k.endswith('>::' + nm) and ' as ' in k
+                              and canon(k[1:k.index(' as ')]) == canon(conc) and canon(k[k.index(' as ') + 4:k.rindex('>::')]).split('<')[0] == canon(tr)]
+                        if len(ks) == 1:
+                            cv = self.named_const_value(ks[0])
                 if cv is not None:
                     return cv
             m = PROMOTED_RE.search(o.get('dbg', ''))
@@ -798,12 +816,16 @@ class Evaluator:
 
     # ----- stepping -----
     def inline_target(self, st, fn):
-        if not fn or not (fn.get('local') or fn.get('resolved_local')) or st.depth >= MAX_INLINE_DEPTH:
+        is_into = bool(fn) and canon(fn.get('path', '')) == 'std::convert::Into::into' and len(fn.get('args') or []) == 2
+        if not fn or not (fn.get('local') or fn.get('resolved_local') or is_into) or st.depth >= MAX_INLINE_DEPTH:
             return None
         facts = self.body.facts
         cand = facts.bodies.get(fn['path'])
         if cand is None and fn.get('resolved_local'):
             cand = facts.bodies.get(fn.get('resolved'))
+        if cand is None and canon(fn['path']) == 'std::convert::Into::into' and len(fn.get('args') or []) == 2:
+            # `x.into()` is `U::from(x)` (core's blanket impl): when the `From` impl is written in this crate, that is the callee
+            cand = facts.bodies.get('<%s as std::convert::From<%s>>::from' % (fn['args'][1], fn['args'][0]))
         if cand is None and fn.get('trait') and st.selfty and str(fn.get('full', '')).startswith('<Self as '):
             # a required method called from a provided method of a crate-private trait, spliced for a concrete Self
             cand = facts.bodies.get('<' + st.selfty + fn['full'][len('<Self'):])
@@ -1018,6 +1040,13 @@ class Evaluator:
                         st.env[(1, st.depth)] = args[1]
                         b = 0
                         continue
+                CTORS = VARIANT_CTORS
+                if name in CTORS and len(args) == 1 and t.get('target') is not None:
+                    # a variant constructor used as a function (`opt.map(Some)`, `ready = Some`)
+                    enum_, var_ = CTORS[name]
+                    self.assign(st, t['dest'], ('agg', enum_, var_, (args[0],), ()), t.get('at'), b)
+                    b = t['target']
+                    continue
                 if name == 'std::option::Option::take' and args and t.get('target') is not None:
                     a0 = args[0]
                     if a0[0] in ('ref', 'rawptr') and self.rooted_local(a0[1]):
@@ -1089,6 +1118,15 @@ class Evaluator:
                         folded = ('const', 'bool', '1' if (x[2] == 'Ok') == name.endswith('is_ok') else '0')
                     elif name == OPT + '::or' and len(args) == 2 and x[2] == 'Some':
                         folded = x
+                    elif name in (OPT + '::map_or', OPT + '::map', RES + '::map', RES + '::map_or') and strip_ref_value(args[-1]) is not None \
+                            and strip_ref_value(args[-1])[0] == 'fnptr' and strip_ref_value(args[-1])[1] in VARIANT_CTORS:
+                        # `opt.map_or(Poll::Pending, Poll::Ready)` / `opt.map(Some)`: the mapping function is a variant constructor
+                        en_, var_ = VARIANT_CTORS[strip_ref_value(args[-1])[1]]
+                        hit = x[2] in ('Some', 'Ok')
+                        if name.endswith('::map_or') and len(args) == 3:
+                            folded = ('agg', en_, var_, (pay,), ()) if hit else args[1]
+                        elif name.endswith('::map') and len(args) == 2:
+                            folded = ('agg', x[1], x[2], (('agg', en_, var_, (pay,), ()),), ()) if hit else x
                     if folded is not None:
                         self.assign(st, t['dest'], folded, t.get('at'), b)
                         b = t['target']
@@ -1142,14 +1180,15 @@ class Evaluator:
                     st.stack.append({'body': st.body, 'visits': st.visits, 'dest': t['dest'], 'target': t['target'], 'bb': b, 'selfty': st.selfty, 'subst': st.subst})
                     if fn and fn.get('trait') and fn.get('args') and callee.key == fn.get('path') and fn['args'][0] != 'Self':
                         st.selfty = fn['args'][0]
-                    gens = callee.j.get('generics') or []
-                    if fn and fn.get('args') and len(gens) == len(fn['args']) and not fn.get('trait'):
+                    gens = [g for g in (callee.j.get('generics') or []) if not str(g).startswith("'")]
+                    fargs = [a for a in ((fn or {}).get('args') or []) if not str(a).startswith("'")]
+                    if fn and fargs and len(gens) == len(fargs) and not fn.get('trait'):
                         outer = st.subst or {}
-                        st.subst = {g: outer.get(a, a) for g, a in zip(gens, fn['args']) if g != a}
-                    elif fn and fn.get('args') and len(gens) == len(fn['args']) and callee.key == fn.get('path') and len(gens) > 1:
+                        st.subst = {g: outer.get(a, a) for g, a in zip(gens, fargs) if g != a}
+                    elif fn and fargs and len(gens) == len(fargs) and callee.key == fn.get('path') and len(gens) > 1:
                         # a provided trait method with generic parameters of its own (`fn share<H: Handle<T>>(&self) -> H`)
                         outer = st.subst or {}
-                        st.subst = {g: outer.get(a, a) for g, a in zip(gens[1:], fn['args'][1:]) if g != a}
+                        st.subst = {g: outer.get(a, a) for g, a in zip(gens[1:], fargs[1:]) if g != a}
                     st.depth += 1
                     st.body = callee
                     st.visits = {}
@@ -1902,6 +1941,11 @@ def classify(d, val, listed):
         if val is None and listed == ['0']:
             return (short, 'F')
         return ('unrec:count-match', 'T')
+    if is_state_read(d) and all(str(x).isdigit() for x in listed):
+        # `match state_read { UNLOCKED => .., TERMINATED => .., _ => .. }`: an integer switch on the signal state itself
+        if val is not None:
+            return ('sig_state', val)
+        return ('sig_state', 'other(' + '|'.join(listed) + ')')
     pollq = poll_query(d)
     if pollq is not None:
         # `sig.poll().is_ready()` / `.is_pending()`: the boolean spelling of `match sig.poll() { Ready(_) | Pending }`
